@@ -6,6 +6,7 @@ mod entries;
 mod findings;
 mod registry;
 mod panics;
+mod realnet;
 mod runner;
 mod wire;
 mod models;
